@@ -37,7 +37,7 @@ def term_obligations(run, cls):
                 goal = z3.And(*[xr.same(exc.num(flds[f]).x, P[f]) if f in flds else xr.F for f in tc.fields()])
                 add(Obl(f"term.{cls}.__init__/ensures.fields[path{i}]", wf + [valid] + pc, goal, fn=f"term.{cls}.__init__", meta=rp("ctor", [])))
     except (Unsupported, KeyError) as ex_:
-        add(undecided(f"term.{cls}.__init__/subset", f"outside the verified subset: {ex_}", fn=f"term.{cls}.__init__"))
+        add(undecided(f"term.{cls}.__init__/subset", f"outside the verified subset: {ex_}", fn=f"term.{cls}.__init__", meta=SAMPLED(cls)))
     # ---- membership
     try:
         y, ex, calls, raises, fn, _ = run_membership(src, cls, ax, A, P, x)
@@ -68,8 +68,13 @@ def term_obligations(run, cls):
             add(Obl(f"{fq}/ensures.monotone", pre + [cx2, xr.le(x, x2)] + ax.axioms() + ax.square_hints(),
                     z3.And(z3.Implies(inc, xr.le(y, y2)), z3.Implies(dec, xr.ge(y, y2))), fn=fq, meta=m(rp("monotone", ["x", "x2"]))))
     except Unsupported as ex_:
-        add(undecided(f"{fq}/subset", f"outside the verified subset: {ex_}", fn=fq))
+        add(undecided(f"{fq}/subset", f"outside the verified subset: {ex_}", fn=fq, meta=SAMPLED(cls)))
     return obls
+
+
+def SAMPLED(cls):
+    """fallback for a method that left the verified subset: the sampled native comparison with the closed form (a reproduced failure is a violation)"""
+    return {"replay": {"module": "contracts.terms", "func": "replay_sampled", "kwargs": {"cls": cls, "what": "membership", "budget": 150}, "vars": {}}}
 
 
 DEFAULTS = {
@@ -136,6 +141,11 @@ def build(run):
     # thorough tier decide)
     run.bounded("term.Arc+SemiEllipse.membership/end_points.runtime", "contracts.terms", "replay_endpoints", [dict(cls=c, which=w, seed=run.seed, n=2000 if run.tier == "quick" else 40000) for c in ("Arc", "SemiEllipse") for w in ("start", "end")],
                 bound="2000 (quick) / 40000 (thorough) random valid (start, end, height) per class and end point, both directions, magnitudes 1e-3..1e6: the value at the end point is the documented one (Arc: 0 at start, height at end; SemiEllipse: 0 at both) within 1e-6*height, never NaN", first_failure=True)
+    nb = 40 if run.tier == "quick" else 600
+    run.bounded("term.*.membership/sampled_vs_closed_form.runtime", "contracts.terms", "replay_sampled", [dict(what="membership", seed=run.seed, budget=nb)],
+                bound=f"{nb} sampled valid parameter vectors per class (degenerate and infinite parameters, several heights) x breakpoints, their floating-point neighbours, midpoints, "
+                      "+-inf, NaN: real membership against the documented closed form (abs 1e-6), NaN iff x is NaN, arrays (1-D, 2-D, nothing inside the support) against the points "
+                      "one by one, and the same object again after being re-configured", first_failure=True)
 
 
 if __name__ == "__main__":
